@@ -98,7 +98,7 @@ namespace Givaro {
 #endif
             size_t index;
             BlocFreeList* tmp;
-            if ((sz <= 32) && ((tmp=BlocFreeList::TabFree[index =sz-1]) !=0)) {
+            if ((sz <= 32) && ((tmp=BlocFreeList::TabFree[index =(sz ? sz-1 : 0)]) !=0)) {
                 BlocFreeList::TabFree[index] = tmp->u.nextfree;
                 tmp->u.index = (int)index;
 #ifdef GIVARO_STATMEM
